@@ -331,7 +331,7 @@ func c35(c *Ctx) {
 						} else {
 							oldOK = FieldLoad(fAgg)(args[1]) && sameValue(fieldBase(args[1]), fa.X)
 						}
-						if newOK && oldOK && (fresh || rt.Block() == st.Block() && instrDominates(rt, st)) {
+						if newOK && oldOK && (fresh || thenAlways(rt, st)) {
 							match = rt
 						}
 					}
